@@ -67,6 +67,15 @@ theorem gen_bytes_and_merge_skeletons :
     Gen.C14.newIntBody = Src.newIntBody ∧ Gen.C14.newRegisterSetInitBody = Src.newRegisterSetInitBody := by
   refine ⟨by decide, by decide, by decide, by decide, by decide, by decide⟩
 
+/-- input-count guards (`in.CheckCount(count, minBytes)`) are not part of the byte-form skeleton:
+    they only reject a word count the remaining bytes cannot supply (4 bytes per word), which the
+    model's `build` rejects as well (`decMany` fails on short input).  The only guard admitted is
+    the one in `BuildHyperLogLog` on the decoded word count with element size 4; any other guard
+    (another function, another count or element size) makes this obligation fail. -/
+theorem gen_count_guards :
+    Gen.C14.countGuards = [] ∨ Gen.C14.countGuards = ["BuildHyperLogLog: v0.CheckCount(int(v2), 4)"] := by
+  decide
+
 /-! ### what the regenerated expressions compute (bridge theorems applied to the generated trees) -/
 
 open HLL.Src in
